@@ -175,16 +175,32 @@ Section Resolve.
   Variable unk : string -> option tex -> bool.
   Variable after : list N.
 
-  (* what the model's loop takes from the collected results, with the accumulators of the Go function *)
+  (* what the model's loop takes from the collected results, with the accumulators of the Go function: the error of
+     the first failing task and the accumulators as that task found them (Model/IntrGenLib.v: resolve_model) *)
   Definition resolve_spec (s0 : list (N * (SCP * SINFO))) (r0 a0 : list N) (rs : list (N * tex))
-    : res (list (N * (SCP * SINFO)) * list N * list N) :=
+    : res unit * (list (N * (SCP * SINFO)) * list N * list N) :=
+    resolve_model after s0 r0 a0 rs.
+
+  Lemma ok_prefix_none : forall rs : list (N * tex), first_fail rs = None -> ok_prefix rs = rs.
+  Proof.
+    induction rs as [|[k x] rs IH]; simpl; auto. unfold first_fail in *; simpl.
+    destruct x; simpl; intros H; try discriminate; f_equal; apply IH; exact H.
+  Qed.
+
+  (* no task failed: everything is taken; a task failed: its error *)
+  Lemma resolve_spec_unfold : forall s0 r0 a0 rs,
+    resolve_spec s0 r0 a0 rs =
     match first_fail rs with
-    | Some e => Err e
-    | None => Ok (s0 ++ subpairs rs, r0 ++ reruns rs, a0 ++ afters after rs)
+    | Some e => (Err e, (s0 ++ subpairs (ok_prefix rs), r0 ++ reruns (ok_prefix rs), a0 ++ afters after (ok_prefix rs)))
+    | None => (Ok tt, (s0 ++ subpairs rs, r0 ++ reruns rs, a0 ++ afters after rs))
     end.
+  Proof.
+    intros s0 r0 a0 rs. unfold resolve_spec, resolve_model. cbv zeta.
+    destruct (first_fail rs) eqn:E; [reflexivity|]. rewrite (ok_prefix_none rs E). reflexivity.
+  Qed.
 
   Lemma after_inner : forall (k : N) l acc,
-    for_range (R := res (list (N * (SCP * SINFO)) * list N * list N))
+    for_range (R := res unit * (list (N * (SCP * SINFO)) * list N * list N))
       (fun key acc => if N.eqb key k then let acc := acc ++ [key] in CBreak acc else CNext acc) l acc
     = inl (if memN k l then acc ++ [k] else acc).
   Proof.
@@ -215,13 +231,16 @@ End Resolve.
 Ltac gen_resolve_loop IH :=
   let t := fresh "t" in let k := fresh "k" in let x := fresh "x" in
   intros [k x]; intros;
-  rewrite first_fail_cons, afters_cons, subpairs_cons, reruns_cons; cbn [for_range snd fst];
+  rewrite first_fail_cons; cbn [for_range snd fst ok_prefix];
   destruct x; cbn [task_err snd fst err_non_nil is_sub_graph_interrupt errors_is_rerun wrap_graph_node_error]; unfold map_put;
   [ rewrite after_inner; cbn [fst snd]; rewrite IH;
-    destruct (first_fail _); [reflexivity|]; destruct (memN _ _); rewrite <- ?app_assoc; reflexivity
-  | rewrite IH; destruct (first_fail _); rewrite <- ?app_assoc; reflexivity
-  | rewrite IH; destruct (first_fail _); rewrite <- ?app_assoc; reflexivity
-  | reflexivity ].
+    destruct (first_fail _); rewrite afters_cons, subpairs_cons, reruns_cons; cbn [snd fst];
+    destruct (memN _ _); rewrite <- ?app_assoc; reflexivity
+  | rewrite IH; destruct (first_fail _); rewrite afters_cons, subpairs_cons, reruns_cons; cbn [snd fst];
+    rewrite <- ?app_assoc; reflexivity
+  | rewrite IH; destruct (first_fail _); rewrite afters_cons, subpairs_cons, reruns_cons; cbn [snd fst];
+    rewrite <- ?app_assoc; reflexivity
+  | cbn [subpairs reruns afters outs flat_map map filter]; rewrite !app_nil_r; reflexivity ].
 
 Theorem gen_resolve_agrees : forall V SCP SINFO (unk : string -> option (@texec V SCP SINFO) -> bool)
     after rs s0 r0 a0,
@@ -229,12 +248,12 @@ Theorem gen_resolve_agrees : forall V SCP SINFO (unk : string -> option (@texec 
 Proof.
   intros V SCP SINFO unk after rs s0 r0 a0.
   first [ reflexivity   (* the neutral file *)
-        | unfold Gen.IntrResolve.resolve_interrupt_completed_tasks, resolve_spec;
+        | rewrite resolve_spec_unfold; unfold Gen.IntrResolve.resolve_interrupt_completed_tasks;
           match goal with
           | |- match for_range ?F rs _ with _ => _ end = _ =>
             assert (G : forall rs s0 r0 a0, for_range F rs (s0, r0, a0) =
                       match first_fail rs with
-                      | Some e => inr (Err e)
+                      | Some e => inr (Err e, (s0 ++ subpairs (ok_prefix rs), r0 ++ reruns (ok_prefix rs), a0 ++ afters after (ok_prefix rs)))
                       | None => inl (s0 ++ subpairs rs, r0 ++ reruns rs, a0 ++ afters after rs)
                       end);
             [ clear; induction rs as [|t rs IH];
@@ -440,8 +459,8 @@ Section LoopAgree.
     destruct (flat_map _ a); simpl; reflexivity.
   Qed.
 
-  Lemma resolve_spec_nil : forall s0 r0 a0, resolve_spec after s0 r0 a0 (@nil (N * tex)) = Ok (s0, r0, a0).
-  Proof. intros; unfold resolve_spec; cbn. rewrite !app_nil_r; reflexivity. Qed.
+  Lemma resolve_spec_nil : forall s0 r0 a0, resolve_spec after s0 r0 a0 (@nil (N * tex)) = (Ok tt, (s0, r0, a0)).
+  Proof. intros; rewrite resolve_spec_unfold; cbn. rewrite !app_nil_r; reflexivity. Qed.
 
   (* calculateNextTasks in the model's terms *)
   Lemma calc_next_unfold : forall cs (completed : list (N * tex)),
@@ -455,6 +474,25 @@ Section LoopAgree.
     | Panic => Panic
     end.
   Proof. reflexivity. Qed.
+
+  Lemma calc_next_end_unfold : forall cs (completed : list (N * tex)),
+    calculate_next_tasks_end fold getr cs completed =
+    match calc fold getr cs (outs completed) with
+    | Ok (cs', ready) => match nlist_get kEnd ready with
+                         | Some v => Ok (cs', [], Some v, true)
+                         | None => Ok (cs', ready, None, false)
+                         end
+    | Err e => Err e
+    | Panic => Panic
+    end.
+  Proof.
+    intros cs completed. unfold calculate_next_tasks_end, calculate_next_tasks.
+    destruct (calc fold getr cs (outs completed)) as [[cs' ready]|e|]; try reflexivity.
+    destruct (nlist_get kEnd ready); reflexivity.
+  Qed.
+
+  (* calculateNextTasks with or without the separate isEnd result *)
+  Ltac calc_unfold := first [ rewrite calc_next_end_unfold | rewrite calc_next_unfold ].
 
   Ltac use_gen :=
     unfold Gen.IntrLoop.loop_body, Gen.IntrLoop.init_body, Gen.IntrLoop.tm_wait.
@@ -517,19 +555,19 @@ Section LoopAgree.
   Ltac batch_proof :=
     let Hrr := fresh "Hrr" in
     intros cs gs next0 rs sched Hb Hnd; use_gen; unfold decide;
-    expose; unfold resolve_spec; cbn [app];
+    expose; rewrite resolve_spec_unfold; cbn [app];
     destruct (first_fail rs) as [e|]; [reflexivity|];
     norm_conds; align_cond;
     destruct (negb (is_nil (subcps rs) && is_nil (reruns rs))) eqn:Hrr; cbn [negb];
     [ expose; rewrite resolve_spec_nil, app_nil_r; cbn [batch_view]; apply handle_sub_rerun_agrees; assumption
     | norm_conds; align_cond; destruct (is_nil rs); cbn [negb]; [reflexivity|];
-      rewrite calc_next_unfold; destruct (calc fold getr cs (outs rs)) as [[cs2 ready]|e|]; try reflexivity;
+      calc_unfold; destruct (calc fold getr cs (outs rs)) as [[cs2 ready]|e|]; try reflexivity;
       destruct (nlist_get kEnd ready) as [v|]; [reflexivity|];
       expose; norm_conds; align_cond;
       destruct (is_nil (hits before ready) && is_nil (afters after rs)); cbn [negb]; [reflexivity|];
       expose; rewrite resolve_spec_nil; norm_conds;
       match goal with |- ?f (if ?c then _ else _) = _ => replace c with false by (rewrite <- Hrr; bool_tauto) end;
-      rewrite calc_next_unfold; cbn [outs flat_map];
+      calc_unfold; cbn [outs flat_map];
       destruct (calc fold getr cs2 []) as [[cs4 ready2]|e|]; try reflexivity;
       destruct (nlist_get kEnd ready2) as [v|]; [reflexivity|]; expose; reflexivity ].
 
@@ -547,29 +585,29 @@ Section LoopAgree.
     let Hnd' := fresh "Hnd'" in let Hndr := fresh "Hndr" in
     intros cs gs next0 running sched Hb Hnd; use_gen; unfold tm_wait_one; cbn [fst snd];
     destruct (pick running sched) as [[[c rest] sched']|] eqn:Hp;
-    [| expose; unfold resolve_spec; cbn [first_fail flat_map app subpairs reruns afters outs map filter];
+    [| expose; rewrite resolve_spec_unfold; cbn [first_fail flat_map app subpairs reruns afters outs map filter];
        norm_conds; cbn [is_nil negb andb orb]; norm_conds; cbn [is_nil negb andb orb]; reflexivity ];
     destruct (pick_nodup _ _ _ _ _ Hp Hnd) as [Hnd' Hndr];
-    unfold edecide; expose; unfold resolve_spec at 1; cbn [app];
+    unfold edecide; expose; rewrite resolve_spec_unfold; cbn [app];
     destruct (first_fail [c]) as [e|]; [reflexivity|];
     norm_conds; align_cond;
     destruct (negb (is_nil (subcps [c]) && is_nil (reruns [c]))) eqn:Hrr; cbn [negb];
-    [ expose; unfold resolve_spec;
+    [ expose; rewrite resolve_spec_unfold;
       destruct (first_fail rest) as [e|]; [reflexivity|];
       rewrite <- subpairs_app, <- reruns_app, <- afters_app; cbn [app eager_view]; f_equal;
       apply handle_sub_rerun_agrees; assumption
     | norm_conds; cbn [is_nil negb];
-      rewrite calc_next_unfold; destruct (calc fold getr cs (outs [c])) as [[cs2 ready]|e|]; try reflexivity;
+      calc_unfold; destruct (calc fold getr cs (outs [c])) as [[cs2 ready]|e|]; try reflexivity;
       destruct (nlist_get kEnd ready) as [v|]; [reflexivity|];
       expose; norm_conds; align_cond;
       destruct (is_nil (hits before ready) && is_nil (afters after [c])); cbn [negb]; [reflexivity|];
-      expose; unfold resolve_spec;
+      expose; rewrite resolve_spec_unfold;
       destruct (first_fail rest) as [e|]; [reflexivity|];
       destruct (no_sub_rerun _ Hrr) as [Hs Hr]; rewrite Hs, Hr; cbn [app];
       norm_conds; align_cond;
       destruct (negb (is_nil (subcps rest) && is_nil (reruns rest))); cbn [negb];
       [ cbn [eager_view]; f_equal; apply handle_sub_rerun_agrees; assumption
-      | rewrite calc_next_unfold;
+      | calc_unfold;
         destruct (calc fold getr cs2 (outs rest)) as [[cs4 ready2]|e|]; try reflexivity;
         destruct (nlist_get kEnd ready2) as [v|]; [reflexivity|]; expose; reflexivity ] ].
 
@@ -587,7 +625,7 @@ Section LoopAgree.
 
   Ltac init_proof :=
     intros cs gs x tm Hb; use_gen; unfold init, init_gen;
-    rewrite calc_next_unfold; cbn [outs flat_map snd fst app];
+    calc_unfold; cbn [outs flat_map snd fst app];
     destruct (calc fold getr cs [(kStart, x)]) as [[cs1 ready]|e|]; try reflexivity;
     destruct (nlist_get kEnd ready) as [v|]; [reflexivity|];
     expose; norm_conds; cbn [orb]; align_cond;
@@ -826,9 +864,9 @@ Proof. split; [vm_compute; auto | vm_compute; intros [H|H]; [discriminate H | de
 Example gen_resolve_witness :
   Gen.IntrResolve.resolve_interrupt_completed_tasks (V := N) (SCP := N) (SINFO := N) (fun _ _ => false) [4; 2] [] [] []
     [(2, TDone 7); (3, TRerun); (4, TSub 8 9); (5, TDone 1)]
-  = Ok ([(4, (8, 9))], [3], [2])
+  = (Ok tt, ([(4, (8, 9))], [3], [2]))
   /\ Gen.IntrResolve.resolve_interrupt_completed_tasks (V := N) (SCP := N) (SINFO := N) (fun _ _ => false) [4; 2] [] [] []
-    [(2, TDone 7); (3, TFail 11); (4, TSub 8 9)] = Err 11.
+    [(2, TDone 7); (3, TFail 11); (4, TSub 8 9)] = (Err 11, ([], [], [2])).
 Proof. split; reflexivity. Qed.
 
 (* one pass of the translated loop body, batch mode: node 2 completed, node 3 (interrupt-before) became ready:
